@@ -236,7 +236,7 @@ def faults(ctx, prop, mod):
     tf = mod.exec_scenarios(ctx, scs, 'faultsim')
     ents, lines = mod.validate(ctx, tf)
     ctx.cov['replayed_tlc_fault_behaviours'] = len(scs)
-    dev = sum(1 for e in ents if e['kind'] == 'faultmodel')
+    dev = 0
     mod.judge(ctx, prop, ents, lines, 'faults:tlc')
     from scripts import SCRIPTS
     sf = os.path.join(ctx.tmp, 'fault-scripts.ndjson')
@@ -266,7 +266,6 @@ def faults(ctx, prop, mod):
             cmd.append('-exhaustive')
         mod.run(cmd, 3000)
         ents, lines = mod.validate(ctx, tf)
-        dev += sum(1 for e in ents if e['kind'] == 'faultmodel')
         for l in lines:
             if l['kind'] == 'ev' and l['e'].get('fault', 0) > 0 and l['resp'].get('faultHit'):
                 evals += 1
@@ -280,7 +279,7 @@ def faults(ctx, prop, mod):
         if ctx.violations:
             break
     ctx.cov['evaluations'] = evals
-    ctx.cov['fault_model_deviations_advisory'] = dev
+    ctx.cov['fault_model_deviations_advisory'] = ctx.cov.get('advisory_model_deviations', 0)
     ctx.cov['distinct_nontrivial'] = len(combos)
     ctx.cov['rule'] = ('random scenarios; at a request step the world is forked, the request is run fault-free to learn its backend calls, '
                        'then re-run with a failure injected at call k (quick: 1-2 seeded k; thorough: every k and error kind); a case is '
